@@ -3,27 +3,38 @@ from common import *
 
 CLAIMED = True
 LEVEL = 'proof'
-LEVEL_TEXT = ('Proof: Coq theorems (coq/Properties/C10.v) over the Gallina model of Framebuffer (coq/Model/Framebuffer.v: set_pixel in its '
+LEVEL_TEXT = ('Proof: 24 Coq theorems (coq/Properties/C10.v) over the Gallina model of Framebuffer (coq/Model/Framebuffer.v: set_pixel in its '
               'three families as written - sub-byte byte/bit index and mask expression, 8-bit, multi-byte to_le/to_be_bytes by data order - '
-              'draw_iter, new, as_image over data[0..BUFFER_SIZE] with ImageRaw::new / data_width / pixel reading through RawDataIterator::nth '
-              'of the C11 model), for all 7 raw widths, both data orders, ALL sizes and all buffer lengths N >= BUFFER_SIZE: a new framebuffer '
-              'reads the zero colour inside and None outside; set_pixel is exactly RawData::store and pixel() exactly RawData::load at index '
-              'x + y * data_width (ImageRaw\'s padded row-major layout), hence set_pixel updates the point->colour map at p iff p is inside '
-              'and nothing else (refinement); by induction over ANY list of set_pixel / draw_iter operations pixel(q) is the colour most recently '
-              'written to q; a write outside WIDTH x HEIGHT returns the identical byte array; bytes at or beyond BUFFER_SIZE are never '
-              'modified (single step and histories); as_image() never panics and is the ImageRaw of the same raw type, data order and size '
-              'over the used prefix; pixel() never panics; drawing as_image() (ImageDrawable::draw with ContiguousPixels modelled as written: '
-              'next / nth(row_skip) on the raw iterator) hands fill_contiguous exactly WIDTH*HEIGHT colours, colour y*WIDTH+x being pixel (x,y). The layout itself (closed forms over the bytes) is C11\'s theorems about load.')
+              'draw_iter, new, fill_contiguous / fill_solid / clear as the DrawTarget trait defaults over draw_iter (area.points() zipped with '
+              'the colour stream), as_image over data[0..BUFFER_SIZE] with ImageRaw::new / data_width / pixel reading through '
+              'RawDataIterator::nth of the C11 model), for all 7 raw widths, both data orders, ALL sizes, all buffer lengths N >= BUFFER_SIZE '
+              'and every usize width (16/32/64 bit: usize is a parameter of the model): a new framebuffer reads the zero colour inside and None '
+              'outside; set_pixel is exactly RawData::store and pixel() exactly RawData::load at index x + y * data_width (ImageRaw\'s padded '
+              'row-major layout), hence set_pixel updates the point->colour map at p iff p is inside and nothing else (refinement); clear(v) '
+              'makes every inside point v; fill_solid(a, v) makes area /\\ box v; fill_contiguous(a, cs) puts colour number '
+              '(y-top)*width+(x-left) at (x,y), ignores surplus colours and leaves the rest when the stream ends early; by induction over ANY '
+              'list of set_pixel / draw_iter / fill_solid / fill_contiguous / clear operations pixel(q) is the colour most recently written to '
+              'q, and the framebuffer is a conforming DrawTarget (the history equals painting the calls on the native target of Model/Target.v); '
+              'a write outside WIDTH x HEIGHT returns the identical byte array; bytes at or beyond BUFFER_SIZE are never modified (single '
+              'step of any of the five operations, and histories); as_image() never panics and is the ImageRaw of the same raw type, data '
+              'order and size over the used prefix; pixel() never panics; drawing as_image(): fill_contiguous receives exactly WIDTH*HEIGHT '
+              'colours (ContiguousPixels modelled as written), and - through the bridge Proofs/Imagebridge.v to the C09 image model and its '
+              'image_draw_spec - the pixel map a target holds after Image::new(&fb.as_image(), o).draw is the framebuffer content shifted by o. '
+              'That Framebuffer defines only draw_iter and that the three trait-default bodies are the modelled ones is re-read from the source '
+              'on every run (translate/gen_fb.py -> Gen/FbShape.v -> C10_fb_inherits_trait_defaults; fail closed).')
 LEVEL_NOTE = ('Trusted: Coq kernel, extraction, the OCaml/Rust drivers; the hand-written model is validated by differential testing on every '
-              'run. fill_solid / fill_contiguous / clear / drawables reach the framebuffer only through the DrawTarget trait defaults and '
-              'draw_iter (C03 / C01 own those); they are exercised here by the search suite against a reference map, and in the '
-              'correspondence by expanding fill_solid/clear into their point lists in the model driver. "Drawing as_image() reproduces the '
-              'content" is proved up to the colour stream and area handed to fill_contiguous (what a target does with it is C03; Image offset C09) '
-              'and checked end-to-end on two targets by p_fb_hist.')
+              'run (usize64 instance, the harness target). Arbitrary drawables reach the framebuffer only through the five DrawTarget methods '
+              'covered here; which calls a drawable makes is C01/C05.. (the search suite draws styled Rectangle/Circle/Line/Triangle against a '
+              'reference target that uses the same trait defaults, so a defect in the defaults themselves is C03\'s to find). The bridge theorem '
+              'C10_fb_as_image_render is for sizes and offsets within +-2^29 (the range of C09) and for the 64-bit usize the C09 model is written for. '
+              'The checks are stricter than the property on row-padding bits: fb_hist and p_fb_hist compare all bytes of data[..BUFFER_SIZE], so a '
+              '(legal) future fill override that also writes padding bits would raise an alarm.')
 RULE = ('correspondence (fb_hist): all bytes of data() and pixel() over the window -1..=W x -1..=H after a history of set_pixel / draw_iter / '
-        'fill_solid / clear operations (points inside, on and beyond every edge, i32 extremes) on a zero or patterned (data_mut) background, for '
-        '7 raw widths x 2 data orders x 13 (W,H,extra) configurations (rows ending and not ending on a byte boundary, oversized buffers, zero '
-        'width / height) incl. every single pixel set alone; (fb_img): the colour stream as_image() hands to fill_contiguous. '
+        'fill_solid / fill_contiguous (finite streams shorter, equal and longer than the area) / clear operations (points inside, on and beyond '
+        'every edge, i32 extremes, areas far outside) on a zero or patterned (data_mut) background, for 7 raw widths x 2 data orders x 15 '
+        '(W,H,extra) configurations (rows ending and not ending on a byte boundary, oversized buffers, zero width / height, one wide 67x2, one '
+        'tall 2x9) incl. every single pixel set alone; the model side runs the extracted fb_fill_solid / fb_fill_contiguous / fb_clear (trait '
+        'defaults over Geometry.points), no hand-written expansion; (fb_img): the colour stream as_image() hands to fill_contiguous. '
         'search (implementation only): p_fb_hist = random histories incl. fill_contiguous and styled Rectangle/Circle/Line/Triangle drawables; '
         'after EVERY operation pixel(), as_image().pixel() and an ImageRaw built over data[..BUFFER_SIZE] are compared with a reference map on a '
         'window, the bytes with an independent bit-by-bit rendering of the documented layout, the oversized tail with its marker pattern; outside '
@@ -41,6 +52,9 @@ PARTIAL = []
 #   y bound dropped (8 bit); mask not clearing old bits; BigEndianLsb0 impl using to_le_bytes; 8-bit index x*HEIGHT+y;
 #   multi-byte index y*W*BYTES + x; as_image over the whole oversized array
 #   image_raw.rs: data_width without row padding; pixel() x bound off by one
+#   round 2: an overriding `fn clear` (self.data.fill) in the RawU8 impl: translator fails closed, proof breaks, p_fb_hist finds the tail
+#   bytes changed; trait default `clear` over bounding_box().offset(1): translator fails closed (no observable difference on a framebuffer);
+#   seeded C10-A (multi-byte set_pixel relying on the slice bound) and C10-B (4bpp mask 2*bpp-1): both VIOLATION with failing input
 #   NOT caught, not observable here: ContiguousPixels remaining_y = height (original defect d): when the WHOLE image is drawn the raw
 #   iterator is exhausted after the last row, so no surplus colour appears (the defect needs a sub-image; it is C09's).
 
@@ -48,7 +62,7 @@ BPPS = [1, 2, 4, 8, 16, 24, 32]
 # (W, H, extra bytes): the framebuffer types instantiated in harness/src/suites/c10.rs (const generics):
 # rows that end on a byte boundary for some depths and not for others, oversized buffers, zero-sized
 SIZES = [(1, 1, 0), (3, 2, 0), (3, 2, 3), (7, 3, 0), (8, 2, 0), (9, 2, 0), (9, 2, 5), (13, 5, 0), (13, 5, 1),
-         (16, 1, 0), (17, 3, 0), (0, 2, 0), (3, 0, 2)]
+         (16, 1, 0), (17, 3, 0), (0, 2, 0), (3, 0, 2), (67, 2, 1), (2, 9, 0)]
 
 
 def coord(rng, m):
@@ -85,8 +99,16 @@ def op(rng, bpp, w, h):
     if k < 0.8:
         n = rng.randrange(0, 6)
         return 'D:' + ';'.join('%d:%d:%d' % (coord(rng, w), coord(rng, h), value(rng, bpp)) for _ in range(n))
-    if k < 0.95:
+    if k < 0.88:
+        # now and then an area far outside / at the i32 limits (Rectangle::points must not be confused by it)
+        if rng.random() < 0.1:
+            return 'F:%d:%d:%d:%d:%d' % (rng.choice([-2 ** 31, 2 ** 31 - 3, -70000, 65536]), rng.randrange(-3, h + 2), rng.randrange(0, 3), rng.randrange(0, h + 3), value(rng, bpp))
         return 'F:%d:%d:%d:%d:%d' % (rng.randrange(-3, w + 2), rng.randrange(-3, h + 2), rng.randrange(0, w + 3), rng.randrange(0, h + 3), value(rng, bpp))
+    if k < 0.95:
+        aw, ah = rng.randrange(0, w + 3), rng.randrange(0, h + 3)
+        n = aw * ah
+        n = rng.choice([n, n, n, max(0, n - rng.randrange(1, 4)), n + rng.randrange(1, 4), 0])
+        return 'G:%d:%d:%d:%d/%s' % (rng.randrange(-3, w + 2), rng.randrange(-3, h + 2), aw, ah, ','.join(str(value(rng, bpp)) for _ in range(n)))
     return 'C:%d' % value(rng, bpp)
 
 
